@@ -70,7 +70,11 @@ type DHTJoinParams struct {
 // DHTJoin joins a node to the rest of the DHT.
 func DHTJoin(params DHTJoinParams) int {
 	var added int
-	dhtIterate(params.Initial, params.Target[:], len(params.Initial), func(node NodeInfo) ([]NodeInfo, bool) {
+	width := len(params.Initial)
+	if width < 1 {
+		width = 1 // nothing to contact: dhtIterate returns at once, but requires a positive width
+	}
+	dhtIterate(params.Initial, params.Target[:], width, func(node NodeInfo) ([]NodeInfo, bool) {
 		if params.AddPeer(node.ID, node.Info) {
 			added++
 		}
@@ -171,7 +175,11 @@ func DHTPut(params DHTPutParams) (*DHTPutResult, error) {
 		TTLms: uint64(params.TTL.Milliseconds()),
 	}
 	var res DHTPutResult
-	dhtIterate(params.Initial, params.Key, len(params.Initial)*3/2, func(node NodeInfo) ([]NodeInfo, bool) {
+	width := len(params.Initial) * 3 / 2
+	if width < 1 {
+		width = 1 // nothing to contact: dhtIterate returns at once, but requires a positive width
+	}
+	dhtIterate(params.Initial, params.Key, width, func(node NodeInfo) ([]NodeInfo, bool) {
 		res.Contacted++
 		resp, err := params.Ask(node, req)
 		if err != nil {
